@@ -1,5 +1,6 @@
 mod c02;
 mod c03;
+mod c18;
 mod c33;
 mod c34;
 mod c35;
@@ -12,6 +13,7 @@ fn main() {
     match id.as_str() {
         "C02" => c02::run(&ctx),
         "C03" => c03::run(&ctx),
+        "C18" => c18::run(&ctx),
         "C33" => c33::run(&ctx),
         "C34" => c34::run(&ctx),
         "C35" => c35::run(&ctx),
